@@ -29,6 +29,9 @@ pub enum Point {
     RegisterReceiver,
     /// About to lock the global collector in `verif::run_collector_cycle`.
     CycleLock,
+    /// The background collector thread is about to lock the global collector for a cycle of its
+    /// own (a harness that drives all cycles itself may keep the thread here).
+    BackgroundCycle,
     /// The receiver registry has been locked by a collector cycle.
     DrainBegin,
     /// About to drain the receiver at this position of the registry.
